@@ -42,11 +42,36 @@ def plan(tier: str) -> dict:
     return {"shards": 4, "budget_s": 30} if tier == "quick" else {"shards": 16, "budget_s": 400}
 
 
+def serialize_after_failed_attempt(cfg: dict, stmts: list) -> bytes:
+    """The caller keeps ONE SerializerOptions object: a first write with it aborts on an object that is no RDF term
+    after k statements were taken (rows still pending); the corrected data is then written with the same options.
+    Only the second write is judged."""
+    from pyjelly.integrations.generic import serialize as gser
+
+    opts = pj.make_options(cfg)
+    k = min(cfg["failed_attempt_first"], len(stmts))
+    natives = [T.stmt_to_generic(s) for s in stmts[:k]]
+    bad = type(natives[-1])(*(list(natives[-1][:2]) + [object()] + list(natives[-1][3:])))
+    pj.OPTIONS_OVERRIDE = opts
+    try:
+        try:
+            for _fr in gser.flat_stream_to_frames(iter(natives + [bad]), options=opts):
+                pass
+        except Exception:  # noqa: BLE001 - the first attempt is meant to fail
+            pass
+        return pj.serialize(cfg, stmts)
+    finally:
+        pj.OPTIONS_OVERRIDE = None
+
+
 def roundtrip(cfg: dict, stmts: list, readers=("flat", "to_graph", "sink_parse", "flat@offset")) -> dict | None:
     """Return a violation witness or None."""
     want = [T.norm_stmt(s) for s in stmts]
     try:
-        data = pj.serialize(cfg, stmts)
+        if cfg.get("failed_attempt_first") and stmts and cfg["entry"] != "sink_serialize":
+            data = serialize_after_failed_attempt(cfg, stmts)
+        else:
+            data = pj.serialize(cfg, stmts)
     except Exception as e:  # noqa: BLE001
         return {"clause": "serializer-raised", "summary": f"{type(e).__name__}: {e}"}
     broken = monitors.take_broken()
@@ -132,6 +157,9 @@ def run_shard(ctx):
             ctx.observe("boundary-length-frames")
         else:
             cfg, stmts, _ = workloads.generic_case(rng, max_len=max_len if rng.random() < .2 else 60)
+            if rng.random() < .12 and stmts:
+                cfg["failed_attempt_first"] = rng.randint(1, len(stmts))
+                ctx.observe("retry-after-failed-attempt-with-same-options-object")
         r = roundtrip(cfg, stmts)
         ctx.observe("roundtrips-compared")
         ctx.observe(f"entry:{cfg['entry']}")
